@@ -13,7 +13,7 @@ import ast
 from sa.model import AnalysisError, FuncInfo
 from sa.ctx import Ctx, short, stmt_key, ENGINE_MODULES
 from sa.cfg import NORMAL, describe_path
-from sa.report import Report
+from sa.report import Report, section
 from sa.effects import Effects
 from sa.sides import SideAnalysis, show, canon, neg, provably_different
 from sa.util import cfg_root, node_has_call, node_stores_attr, has_fact, fact_in, side_names
@@ -157,20 +157,20 @@ class C03:
 
 def run(ctx: Ctx, rep: Report, tier: str):
     c = C03(ctx, rep)
-    c.r1_r2()
-    c.r3()
-    c.r4()
+    section(rep, c.r1_r2)
+    section(rep, c.r3)
+    section(rep, c.r4)
     from rules.common import kids_sync_path_rebased
     rep.rule("C03.R7", "a renamed folder re-bases each child's last-synced path from the child's own old last-synced path: a child rename that was not mirrored yet is not booked as mirrored (C04.R4b)", 1)
-    kids_sync_path_rebased(ctx, rep, "C03.R7")
+    section(rep, lambda: kids_sync_path_rebased(ctx, rep, "C03.R7"))
     # the temporary-rename flag lands on the entry whose file was moved away
     rep.rule("C03.R6", "rename_to_fix_conflict flags TEMP_RENAME on exactly the entry whose peer file it renamed (each update_entry(E, oid=new id) is followed, under "
              "temp_rename, by E.ignore(TEMP_RENAME) for the same E): otherwise a one-sided rename cycle is treated as a two-sided conflict", 2)
     from rules.common import temp_rename_on_moved_entry
-    temp_rename_on_moved_entry(ctx, rep, "C03.R6")
+    section(rep, lambda: temp_rename_on_moved_entry(ctx, rep, "C03.R6"))
     from rules.common import dir_delete_rechecks_kids
     rep.rule("C03.R8", "a folder delete that meets children on the peer is mirrored after them: children and folder are FORCE-synced on the deleting side (C04.R7)", 2)
-    dir_delete_rechecks_kids(ctx, rep, "C03.R8")
+    section(rep, lambda: dir_delete_rechecks_kids(ctx, rep, "C03.R8"))
     from rules.C12 import C12
     rep.rule("C03.R5", "path translation between the roots decides membership with the SOURCE side's path rules and joins with the destination's, falling "
              "through to None (C12.Y2): otherwise one-sided changes under a differently spelled root are dropped as irrelevant", 3)
@@ -186,18 +186,18 @@ def run(ctx: Ctx, rep: Report, tier: str):
     _alias(rep, ["C17.A6", "C17.A5", "C17.A7"], "C03.R9", "change stamps strictly increase (C17.A6): every user change outdates the last refresh of its entry and is therefore re-read and mirrored", 1, lambda: _C17(ctx, rep).a5_a7())
     from rules.common import definition_holds
     rep.rule("C03.R10", "what counts as a change to mirror: the definitions of needs_sync (side), is_path_change and is_creation", 3)
-    definition_holds(ctx, rep, "C03.R10", "SideState.needs_sync", "a one-sided change is not mirrored, or an unchanged side is mirrored again")
-    definition_holds(ctx, rep, "C03.R10", "SyncEntry.is_path_change", "a rename is not recognised as one (it is mirrored as delete + create, or not at all)")
-    definition_holds(ctx, rep, "C03.R10", "SyncEntry.is_creation", "a new object is not created on the peer, or an existing one is created again")
+    section(rep, lambda: definition_holds(ctx, rep, "C03.R10", "SideState.needs_sync", "a one-sided change is not mirrored, or an unchanged side is mirrored again"))
+    section(rep, lambda: definition_holds(ctx, rep, "C03.R10", "SyncEntry.is_path_change", "a rename is not recognised as one (it is mirrored as delete + create, or not at all)"))
+    section(rep, lambda: definition_holds(ctx, rep, "C03.R10", "SyncEntry.is_creation", "a new object is not created on the peer, or an existing one is created again"))
     from rules.common import embrace_dispatch
     rep.rule("C03.R11", "every kind of one-sided change has its arm in embrace_change and is routed to it under exactly its own condition (C01.R16)", 3)
-    embrace_dispatch(ctx, rep, "C03.R11")
+    section(rep, lambda: embrace_dispatch(ctx, rep, "C03.R11"))
     from rules.common import uploads_read_the_changed_sides_download
     rep.rule("C03.R12", "what is mirrored is the changed side's content: upload_synced / _create_synced open sync[changed].temp_file only; download_changed re-keys the "
              "temp file to the current content before it looks at it and reuses it only when it exists", 5)
-    uploads_read_the_changed_sides_download(ctx, rep, "C03.R12")
-    definition_holds(ctx, rep, "C03.R10", "SyncManager.path_conflict", "the engine's own parking rename / a one-sided rename is read as a two-sided rename conflict: the origin side is written to")
+    section(rep, lambda: uploads_read_the_changed_sides_download(ctx, rep, "C03.R12"))
+    section(rep, lambda: definition_holds(ctx, rep, "C03.R10", "SyncManager.path_conflict", "the engine's own parking rename / a one-sided rename is read as a two-sided rename conflict: the origin side is written to"))
     from rules.common import walk_dedupe_is_exact
     rep.rule("C03.R13", "a change that is only seen by a walk (restart with a rejected cursor) is still mirrored: the walk filter drops an event only when hash AND path are "
              "exactly what the state holds (C14.W6b)", 1)
-    walk_dedupe_is_exact(ctx, rep, "C03.R13")
+    section(rep, lambda: walk_dedupe_is_exact(ctx, rep, "C03.R13"))
